@@ -27,6 +27,10 @@ claimed = {
          "per rune / per token only: the induction over sequences (unescape of a concatenation) and runes >= 0x80 inside escape's range-over-string are not proved; \\x and octal tokens excluded (non-constant bit-or abstracted); dump commands' printing assumed transparent; unicode.IsPrint/ToUpper assumed on ASCII; 1 known finding (0x80-0x9F, 0xFF)"),
  "C03": ("DESIGN.md §4 C03", "matchBind proved against quantified spec functions over the whole bind table in any map order (exact match sound and complete, prefixed non-empty iff the keys are a proper prefix of some converted sequence; in-place sort modelled as a skolemised permutation); dispatchKeys proved by loop invariant: keys consumed in order, prefix waits, an exact match runs its own binding, the key that rules out longer bindings falls back on the shorter binding whose keys are reported as matched, nothing runs on an empty stack; MatchMain/MatchLocal key accounting: the bytes removed from the stack are exactly the converted sequence of the binding returned; run feeds the unescaped macro body and the pop order puts macro keys first",
          "typed keys only in the dispatch statements (no macro keys pending, no binding kept from an earlier prefix), plain bind tables (isearch / non-incremental search restrictions assumed safe), vi ESC special-casing excluded (emacs main keymaps); ConvertMeta named by an uninterpreted function (pure, frame and termination proved); that Readline enters run once per resolved bind is A-LOOP"),
+ "C02": ("DESIGN.md §4 C02", "per keystroke chain on the real functions: MatchMain resolves a typed printable ASCII byte bound to self-insert to that binding with the byte as the only caller key and nothing else consumed (for every bind table satisfying the stated hypothesis, any meta-variable setting); selfInsert inserts exactly that character at the cursor and advances by one (Quote / Unescape / TrimSuffix / autopair early exit under contract); Line.Insert, Cursor.InsertAt, Accept/LineAccepted return the buffer",
+         "the induction over the typed string is the main loop (A-LOOP); bind-table hypothesis H-TABLE (the byte is bound to self-insert and starts no longer sequence) is a precondition, not checked against DefaultBinds(); pair characters excluded (autopairs); uniseg.StringWidth assumed 1 on printable ASCII; 1 known finding: all non-ASCII input is dropped by the byte dispatcher"),
+ "C18": ("DESIGN.md §4 C18", "RecordKeys appends exactly the matched keys (skipping the key that started recording), StopRecord stores EscapeMacro of the recorded keys under the register and as last macro, RunLastMacro and RunMacro feed runes(Unescape(stored)) in order, PopKey/PeekKey pop fed keys first and in order; with the C19 lemma Unescape(EscapeMacro(k)) == k per key this is replay == retype for ASCII keys",
+         "that every key typed while recording passes through RecordKeys once is the main loop (A-LOOP); Unescape/EscapeMacro named by uninterpreted functions here (their per-token behaviour is C19); 1 known finding: runes >= 0x80 are replayed as one truncated byte; ESC-timing dependence of replayed vi macros (one chunk) not covered"),
 }
 not_applicable = {
  "C04": "needs a VT100 cell-grid interpreter of the emitted byte stream as oracle; contracts on the repository's functions cannot state what a terminal shows (DESIGN.md §4 C04)",
@@ -34,11 +38,9 @@ not_applicable = {
 }
 pending = {
  "C01": "not yet claimed: contracts for the command layer are still being written (DESIGN.md §7 build order)",
- "C02": "not yet claimed: needs the dispatcher contracts (DESIGN.md §7 step 3)",
  "C05": "not yet claimed: needs the ghost input stream layer (DESIGN.md §7 step 3)",
  "C10": "not yet claimed: assumed-library layer not reached yet (DESIGN.md §4 C10)",
  "C11": "not yet claimed: ghost termios / defers on the panic edge not yet built",
- "C18": "not yet claimed: macro engine contracts not yet written",
 }
 import os, sys
 checks = []
